@@ -704,7 +704,7 @@ def _ctor_keywords(qual):
     return ci, fn, names, defs
 
 
-def _cw_unit(qual, strings=(), arrays=(), skip=(), alias=None, extra_abs=None, convert=None, props='C16', write_in=None, assume=None, ints=()):
+def _cw_unit(qual, strings=(), arrays=(), skip=(), alias=None, extra_abs=None, convert=None, props='C16', write_in=None, assume=None, ints=(), where=None):
     clsname = qual.split(':')[1]
     alias = alias or {}
     wqual = (qual.split(':')[0] + ':' + write_in) if write_in else qual
@@ -744,6 +744,16 @@ def _cw_unit(qual, strings=(), arrays=(), skip=(), alias=None, extra_abs=None, c
                 written[e[2]] = e[3]
         d = {}
         heap = c.raw['state'].heap
+        if where is not None:
+            # where the loader (load_model_from_hdf5 / load_generic_profile_from_hdf5: own units) looks: ONE group of this name directly
+            # under the output handed in, holding the type key = this class's name and every keyword
+            grp = where[0] if where[0] != '<molecule>' else kw['molecule_name']
+            groups = [(e[1], e[2]) for e in (c.trace or []) if e[0] == 'create_group']
+            d['one_group_where_the_loader_reads_it'] = groups == [('out', grp)]
+            here = {e[2]: e[3] for e in (c.trace or []) if e[0].startswith('write_') and e[1] == 'out/%s' % grp}
+            if where[1] is not None:           # (contributions: the loader takes the group name as the type, no key)
+                d['type_key_names_this_class'] = here.get(where[1]) == clsname
+            d['every_keyword_in_that_group'] = all(alias.get(nm, nm) in here for nm in kw if nm not in skip)
         for nm, val in kw.items():
             if nm in skip:
                 continue
@@ -778,28 +788,28 @@ def _cw_unit(qual, strings=(), arrays=(), skip=(), alias=None, extra_abs=None, c
 
 
 _noop2 = lambda ex, st, args, kwargs, node: None
-CW_ISO = _cw_unit('taurex.data.profiles.temperature.isothermal:Isothermal')
-CW_GUI = _cw_unit('taurex.data.profiles.temperature.guillot:Guillot2010', extra_abs={'call:_check_values': _noop2})
+CW_ISO = _cw_unit('taurex.data.profiles.temperature.isothermal:Isothermal', where=('Temperature', 'temperature_type'))
+CW_GUI = _cw_unit('taurex.data.profiles.temperature.guillot:Guillot2010', extra_abs={'call:_check_values': _noop2}, where=('Temperature', 'temperature_type'))
 _T = 'taurex.data.profiles.temperature.'
 _G = 'taurex.data.profiles.chemistry.gas.'
 _C = 'taurex.contributions.'
-CW_NPT = _cw_unit(_T + 'npoint:NPoint', arrays=('temperature_points', 'pressure_points'),
+CW_NPT = _cw_unit(_T + 'npoint:NPoint', arrays=('temperature_points', 'pressure_points'), where=('Temperature', 'temperature_type'),
                   extra_abs={'call:generate_pressure_fitting_params': _noop2, 'call:generate_temperature_fitting_params': _noop2},
                   assume=lambda kw: [z3.Int('len_temperature_points') == z3.Int('len_pressure_points'), kw['P_surface'] > 0, kw['P_top'] > 0])
-CW_PRS = _cw_unit('taurex.data.profiles.pressure.pressureprofile:SimplePressureProfile', ints=('nlayers',),
+CW_PRS = _cw_unit('taurex.data.profiles.pressure.pressureprofile:SimplePressureProfile', ints=('nlayers',), where=('Pressure', 'pressure_type'),
                   assume=lambda kw: [kw['atm_min_pressure'] <= kw['atm_max_pressure'], kw['atm_min_pressure'] > 0, kw['nlayers'] >= 1])
-CW_PLN = _cw_unit('taurex.data.planet:Planet', skip=('planet_sma', 'planet_mass', 'planet_radius', 'planet_distance'), write_in='BasePlanet')
+CW_PLN = _cw_unit('taurex.data.planet:Planet', skip=('planet_sma', 'planet_mass', 'planet_radius', 'planet_distance'), write_in='BasePlanet', where=('Planet', 'planet_type'))
 # (mass / radius / distance: stored through astropy unit conversion and written through taurex.constants -- their agreement is a
 #  numeric fact about two tables, left to the bounded round trip)
-CW_STR = _cw_unit('taurex.data.stellar.star:BlackbodyStar', write_in='Star')
-CW_CGS = _cw_unit(_G + 'constantgas:ConstantGas', strings=('molecule_name',), extra_abs={'call:add_active_gas_param': _noop2})
-CW_TLG = _cw_unit(_G + 'twolayergas:TwoLayerGas', strings=('molecule_name',))
-CW_TPG = _cw_unit(_G + 'twopointgas:TwoPointGas', strings=('molecule_name',))
-CW_PWG = _cw_unit(_G + 'powergas:PowerGas', strings={'molecule_name': 'TiO', 'profile_type': 'VO'})
-CW_ARG = _cw_unit(_G + 'arraygas:ArrayGas', strings=('molecule_name',), arrays=('mix_ratio_array',))
-CW_SCL = _cw_unit(_C + 'simpleclouds:SimpleCloudsContribution')
-CW_LEE = _cw_unit(_C + 'leemie:LeeMieContribution')
-CW_FLT = _cw_unit(_C + 'flatmie:FlatMieContribution')
+CW_STR = _cw_unit('taurex.data.stellar.star:BlackbodyStar', write_in='Star', where=('Star', 'star_type'))
+CW_CGS = _cw_unit(_G + 'constantgas:ConstantGas', strings=('molecule_name',), extra_abs={'call:add_active_gas_param': _noop2}, where=('<molecule>', 'gas_type'))
+CW_TLG = _cw_unit(_G + 'twolayergas:TwoLayerGas', strings=('molecule_name',), where=('<molecule>', 'gas_type'))
+CW_TPG = _cw_unit(_G + 'twopointgas:TwoPointGas', strings=('molecule_name',), where=('<molecule>', 'gas_type'))
+CW_PWG = _cw_unit(_G + 'powergas:PowerGas', strings={'molecule_name': 'TiO', 'profile_type': 'VO'}, where=('<molecule>', 'gas_type'))
+CW_ARG = _cw_unit(_G + 'arraygas:ArrayGas', strings=('molecule_name',), arrays=('mix_ratio_array',), where=('<molecule>', 'gas_type'))
+CW_SCL = _cw_unit(_C + 'simpleclouds:SimpleCloudsContribution', where=('SimpleCloudsContribution', None))
+CW_LEE = _cw_unit(_C + 'leemie:LeeMieContribution', where=('LeeMieContribution', None))
+CW_FLT = _cw_unit(_C + 'flatmie:FlatMieContribution', where=('FlatMieContribution', None))
 
 
 # ------------------------------------------------------------------ store_contributions: every contribution and component stored under its name, grids stripped
@@ -1129,3 +1139,386 @@ LGP = Unit('C16', HD + 'load_generic_profile_from_hdf5', _lg_params, post=_lg_po
                'the list of its texts -- each overridden by the replacement dictionary where that names it, plus the premade arguments; '
                'keywords the group does not hold keep the constructor default; entries that are no constructor keyword are ignored '
                '(h5py group / dataset, class_for_name, get_klass_args, decode_string_array abstract)')
+
+
+# ------------------------------------------------------------------ get_klass_args: the defaulted constructor parameters, in order
+from contracts import c15 as _c15          # installs the assumed model of inspect.getfullargspec (signature = the case's `sig`)
+
+
+def _ka_params(c):
+    sig = c.choice('sig')
+    if c.mode == 'conc':
+        return dict(klass=dict(__obj__='Klass', sig=sig))
+    return dict(klass=AbsObj('Klass', 'K', {'__init__': '<init>'}))
+
+
+def _ka_post(c, v0, v1, r):
+    names, nd = (c.fixed['sig'] if c.mode != 'conc' else c.values['sig'])
+    want = list(names[len(names) - nd:]) if nd else []
+    return {'the_defaulted_parameters_in_order': list(r) == want}
+
+
+def _ka_native(c, p):
+    from taurex.util.hdf5 import get_klass_args
+    names, nd = c.values['sig']
+    nd_ = nd or 0
+    params = list(names[1:])
+    src = 'def __init__(self%s): pass' % ''.join(', %s%s' % (n, '=1.0' if i >= len(params) - nd_ else '') for i, n in enumerate(params))
+    ns = {}
+    exec('class K:\n    ' + src, ns)
+    return get_klass_args(ns['K']), p
+
+
+GKA = Unit('C16', HD + 'get_klass_args', _ka_params, post=_ka_post, cases=[{'sig': s} for s in _c15._SIGS], bounds=[{}], native=_ka_native,
+           gen=lambda rng: dict(sig=rng.choice(_c15._SIGS)), short='get_klass_args',
+           doc='the loader side of constructor keyword discovery: the parameters of the constructor that have a default, in order, [] when '
+               'there is none (inspect.getfullargspec: assumed model)')
+
+
+# ------------------------------------------------------------------ load_model_from_hdf5: which groups are read, in which order, into what
+def _lm_fx(c):
+    return c.fixed if c.mode != 'conc' else c.values
+
+
+def _lm_params(c):
+    if c.mode == 'conc':
+        return dict(loc=dict(__obj__='Group'), replacement_dict=None)
+    return dict(loc=AbsObj('Group', 'MP', {}), replacement_dict=(None if not c.fixed['repl'] else {'T': 'repl_T'}))
+
+
+def _h_lm_get(ex, st, o, args, kwargs, node):
+    fx = ex.c.fixed
+    key = args[0]
+    path = '%s/%s' % (o.ident, key)
+    if o.ident == 'MP/Contributions':
+        kinds = dict(fx['contribs'])
+        if key not in kinds:
+            raise _Raise(st, ExcV('KeyError', getattr(node, 'lineno', 0)))
+        return AbsObj('Group' if kinds[key] == 'group' else 'Dataset', path, {})
+    if o.ident == 'MP/Chemistry' and key in ('active_gases', 'inactive_gases'):
+        return AbsObj('Dataset', path, {})
+    return AbsObj('Group', path, {})
+
+
+def _h_lm_keys(ex, st, o, args, kwargs, node):
+    fx = ex.c.fixed
+    if o.ident == 'MP/Contributions':
+        return st.alloc(ex.c, PyList([k for k, _ in fx['contribs']]))
+    raise _Raise(st, ExcV('Unmodelled', 0))
+
+
+def _h_lm_read(ex, st, o, args, kwargs, node):
+    return AbsObj('ndarray', o.ident, {})
+
+
+def _h_lm_decode(ex, st, args, kwargs, node):
+    fx = ex.c.fixed
+    v = args[0]
+    which = v.ident.rsplit('/', 1)[1]
+    return st.alloc(ex.c, PyList(list(fx['active'] if which == 'active_gases' else fx['inactive'])))
+
+
+def _h_lm_generic(ex, st, args, kwargs, node):
+    fx = ex.c.fixed
+    loc, module, identifier = args[0], args[1], args[2]
+    pm = kwargs.get('premade_dict')
+    pmv = None
+    if isinstance(pm, Ref):
+        pmv = tuple(sorted((k, v.ident if isinstance(v, AbsObj) else v) for k, v in st.get(pm).items.items()))
+    rd = kwargs.get('replacement_dict')
+    _ev(st, 'load', loc.ident, module, identifier, kwargs.get('profile_type'), pmv, None if rd is None else 'repl')
+    if loc.ident == 'MP/Chemistry':
+        if fx['chem'] == 'taurex':
+            return AbsObj('TaurexChemistry', 'obj:MP/Chemistry', {'_fill_gases': st.alloc(ex.c, PyList(list(fx['fill'])))})
+        return AbsObj('OtherChemistry', 'obj:MP/Chemistry', {})
+    return AbsObj('Loaded', 'obj:' + loc.ident, {})
+
+
+def _lm_expected(fx):
+    repl = 'repl' if fx['repl'] else None
+    ev = [('load', 'MP/Chemistry', 'taurex.data.profiles.chemistry', 'chemistry_type', None, None, repl)]
+    if fx['chem'] == 'taurex':
+        for mol in list(fx['active']) + list(fx['inactive']):
+            if mol not in fx['fill']:
+                ev.append(('load', 'MP/Chemistry/' + mol, 'taurex.data.profiles.chemistry', 'gas_type', None, None, None))
+                ev.append(('addGas', 'obj:MP/Chemistry/' + mol))
+    ev.append(('load', 'MP/Pressure', 'taurex.data.profiles.pressure', 'pressure_type', None, None, repl))
+    ev.append(('load', 'MP/Temperature', 'taurex.data.profiles.temperature', 'temperature_type', None, None, repl))
+    ev.append(('load', 'MP/Planet', 'taurex.data.planet', 'planet_type', 'Planet', None, repl))
+    ev.append(('load', 'MP/Star', 'taurex.data.stellar', 'star_type', None, None, repl))
+    made = tuple(sorted([('planet', 'obj:MP/Planet'), ('star', 'obj:MP/Star'), ('chemistry', 'obj:MP/Chemistry'),
+                         ('temperature_profile', 'obj:MP/Temperature'), ('pressure_profile', 'obj:MP/Pressure')]))
+    ev.append(('load', 'MP', 'taurex.model', 'model_type', None, made, repl))
+    for k, kind in fx['contribs']:
+        if kind == 'group':
+            ev.append(('load', 'MP/Contributions/' + k, 'taurex.contributions', 'contrib_type', k, None, repl))
+            ev.append(('add_contribution', 'obj:MP/Contributions/' + k))
+    return ev
+
+
+def _lm_post(c, v0, v1, r):
+    fx = _lm_fx(c)
+    tr = [tuple(e) for e in (c.trace or []) if e[0] in ('load', 'addGas', 'add_contribution')]
+    want = _lm_expected(fx)
+    d = {'every_part_loaded_from_its_own_group_once_in_order_and_put_together': tr == want}
+    if c.mode != 'conc':
+        ret = c.raw['ret']
+        d['returns_the_model_built_from_the_loaded_parts'] = isinstance(ret, AbsObj) and ret.ident == 'obj:MP'
+    else:
+        d['returns_the_model_built_from_the_loaded_parts'] = r == 'obj:MP'
+    return d
+
+
+def _lm_native(c, p):
+    import h5py
+    import numpy as np
+    import taurex.util.hdf5 as H
+    from taurex.data.profiles.chemistry import TaurexChemistry
+    from pyvc.unit import patched
+    fx = c.values
+    trace = []
+    f = h5py.File('c16-lm-%d.h5' % id(trace), 'w', driver='core', backing_store=False)
+    mp = f.create_group('MP')
+    for g in ('Pressure', 'Temperature', 'Planet', 'Star'):
+        mp.create_group(g)
+    ch = mp.create_group('Chemistry')
+    for name, mols in (('active_gases', fx['active']), ('inactive_gases', fx['inactive'])):
+        ch.create_dataset(name, (len(mols), 1), 'S64', [m.encode() for m in mols])
+        for m in mols:
+            ch.require_group(m)
+    cg = mp.create_group('Contributions')
+    for k, kind in fx['contribs']:
+        if kind == 'group':
+            cg.create_group(k)
+        else:
+            cg.create_dataset(k, data=1.0)
+
+    class _L:
+        def __init__(self, ident):
+            self.ident = ident
+
+        def add_contribution(self, o):
+            trace.append(('add_contribution', o.ident))
+
+    class _Chem(TaurexChemistry):
+        def addGas(self, o):
+            trace.append(('addGas', o.ident))
+
+    def generic(loc, module, identifier, profile_type=None, premade_dict=None, replacement_dict=None):
+        ident = loc.name.lstrip('/')
+        pmv = None if premade_dict is None else tuple(sorted((k, v.ident) for k, v in premade_dict.items()))
+        trace.append(('load', ident, module, identifier, profile_type, pmv, None if replacement_dict is None else 'repl'))
+        if ident == 'MP/Chemistry' and fx['chem'] == 'taurex':
+            o = _Chem.__new__(_Chem)
+            o._fill_gases = list(fx['fill'])
+            o.ident = 'obj:' + ident
+            return o
+        return _L('obj:' + ident)
+    try:
+        with patched(H.load_generic_profile_from_hdf5, generic):
+            m = H.load_model_from_hdf5(mp, replacement_dict=({'T': 'repl_T'} if fx['repl'] else None))
+    finally:
+        f.close()
+    return getattr(m, 'ident', m), dict(p, __trace__=trace)
+
+
+_LM_CASES = [dict(chem=ch, active=a, inactive=i, fill=fl, contribs=cs, repl=rp)
+             for ch, a, i, fl in (('taurex', ('H2O', 'CH4'), ('N2',), ('H2', 'He')), ('taurex', ('H2O',), ('He', 'N2'), ('H2', 'He')), ('taurex', (), (), ('H2',)), ('taurex', ('H2', 'H2O'), ('He',), ('H2', 'He')),
+                                  ('other', ('H2O',), ('N2',), ()))
+             for cs in ((), (('Absorption', 'group'),), (('Absorption', 'group'), ('some_number', 'dataset'), ('Rayleigh', 'group')))
+             for rp in (False, True)]
+
+LMH = Unit('C16', HD + 'load_model_from_hdf5', _lm_params, post=_lm_post, cases=_LM_CASES, bounds=[{}],
+           abstract={'Group.__getitem__': _h_lm_get, 'Group.keys': _h_lm_keys, 'Dataset.__getitem__': _h_lm_read, 'call:decode_string_array': _h_lm_decode,
+                     'call:load_generic_profile_from_hdf5': _h_lm_generic,
+                     'TaurexChemistry.addGas': lambda ex, st, o, args, kwargs, node: _ev(st, 'addGas', args[0].ident),
+                     'Loaded.add_contribution': lambda ex, st, o, args, kwargs, node: _ev(st, 'add_contribution', args[0].ident)},
+           native=_lm_native, gen=lambda rng: dict(rng.choice(_LM_CASES)), short='load_model_from_hdf5',
+           doc='the model loader: chemistry, pressure, temperature, planet (always class Planet) and star are each loaded by the generic loader from '
+               'the group of that name with that group\'s type key; a TaurexChemistry gets every stored active and inactive gas that is not a fill '
+               'gas, loaded from the sub-group of its name, in stored order; the model is loaded from the top group with exactly those five objects '
+               'as premade arguments; every sub-GROUP of Contributions (datasets skipped) is loaded with its own name as type and added, in stored '
+               'order; the replacement dictionary is handed to every one of these loads except the gases (as the code stands); the model is '
+               'returned (h5py groups, decode_string_array and the generic loader -- its own unit -- abstract)')
+
+
+# ------------------------------------------------------------------ the model's own write(): every part written where the loader reads it
+def _mw_unit(modname, clsname, key, attr, value_of):
+    def params(c):
+        n = c.fixed['ncontrib'] if c.mode != 'conc' else c.values['ncontrib']
+        if c.mode == 'conc':
+            return dict(self=dict(__obj__=clsname), output=dict(__obj__='Output'))
+        return dict(self=ObjSpec(clsname, contribution_list=[AbsObj('Contribution', 'contrib%d' % i, {}) for i in range(n)],
+                                 _chemistry=AbsObj('Part', 'chemistry', {}), _temperature_profile=AbsObj('Part', 'temperature', {}),
+                                 _pressure_profile=AbsObj('Part', 'pressure', {}), _planet=AbsObj('Part', 'planet', {}), _star=AbsObj('Part', 'star', {}),
+                                 **{attr: (c.bool('flag') if attr == 'new_method' else c.int('ngauss'))}),
+                    output=AbsObj('Output', 'out', {}))
+
+    def h_part(ex, st, o, args, kwargs, node):
+        _ev(st, 'part.write', o.ident, args[0].ident)
+        return None
+
+    def post(c, v0, v1, r):
+        n = c.fixed['ncontrib'] if c.mode != 'conc' else c.values['ncontrib']
+        tr = [tuple(e) for e in (c.trace or []) if e[0] in ('model', 'create_group', 'part.write') or e[0].startswith('write_')]
+        mp = 'out/ModelParameters'
+        want = [('model',), ('create_group', 'out', 'ModelParameters'), ('write_string', mp, 'model_type', clsname), ('create_group', mp, 'Contributions')] + \
+               [('part.write', 'contrib%d' % i, mp + '/Contributions') for i in range(n)] + \
+               [('part.write', p, mp) for p in ('chemistry', 'temperature', 'pressure', 'planet', 'star')]
+        d = {'model_run_first_then_every_part_written_where_the_loader_reads_it': tr[:len(want)] == want}
+        rest = tr[len(want):]
+        d['own_keyword_written_into_the_model_group'] = len(rest) == 1 and rest[0][:3] == ('write_scalar', mp, key)
+        if d['own_keyword_written_into_the_model_group']:
+            got = rest[0][3]
+            if c.mode == 'conc':
+                d['own_keyword_has_the_value_of_the_object'] = got == value_of(c, v0)
+            else:
+                w = value_of(c, v0)
+                d['own_keyword_has_the_value_of_the_object'] = (_to_real(got) == _to_real(w)) if is_sym(got) or is_sym(w) else got == w
+        return d
+
+    def native(c, p):
+        import importlib
+        K = getattr(importlib.import_module(modname), clsname)
+        trace = []
+        n = c.values['ncontrib']
+
+        class _G:
+            def __init__(self, ident):
+                self.ident = ident
+
+            def create_group(self, name):
+                trace.append(('create_group', self.ident, name))
+                return _G('%s/%s' % (self.ident, name))
+
+            def write_string(self, k, v):
+                trace.append(('write_string', self.ident, k, v))
+
+            def write_scalar(self, k, v):
+                trace.append(('write_scalar', self.ident, k, v))
+
+        class _P:
+            def __init__(self, ident):
+                self.ident = ident
+
+            def write(self, out):
+                trace.append(('part.write', self.ident, out.ident))
+        o = K.__new__(K)
+        o.contribution_list = [_P('contrib%d' % i) for i in range(n)]
+        o._chemistry, o._temperature_profile, o._pressure_profile, o._planet, o._star = (_P(x) for x in ('chemistry', 'temperature', 'pressure', 'planet', 'star'))
+        val = c.values.get('flag', False) if attr == 'new_method' else c.values.get('ngauss', 4)
+        setattr(o, attr, val)
+        o.model = lambda *a, **k: trace.append(('model',))
+        o.write(_G('out'))
+        return None, dict(p, self=dict(p['self'], **{attr: val}), __trace__=trace)
+    return Unit('C16', '%s:%s.write' % (modname, clsname), params, post=post, cases=[dict(ncontrib=k) for k in (0, 1, 3)], bounds=[{}], native=native,
+                abstract=dict(_OUT_ABS2, **{'call:model': lambda ex, st, args, kwargs, node: _ev(st, 'model'), 'Part.write': h_part, 'Contribution.write': h_part}),
+                gen=lambda rng: dict(ncontrib=rng.choice([0, 1, 3]), flag=rng.random() < 0.5, ngauss=rng.randint(1, 8)), short=clsname + '.write',
+                doc='the model\'s own write(): the model is run first; then group ModelParameters under the output with model_type = this class, a '
+                    'sub-group Contributions into which every contribution writes itself in list order, and chemistry, temperature, pressure, planet, '
+                    'star each writing itself into ModelParameters -- exactly where load_model_from_hdf5 reads them; the model\'s own constructor '
+                    'keyword (%s) written there too (the parts\' write() abstract here: own scenario units)' % key)
+
+
+MW_TR = _mw_unit('taurex.model.transmission', 'TransmissionModel', 'new_path_method', 'new_method',
+                 lambda c, v0: (z3.If(z3.Bool('flag'), 1, 0) if c.mode != 'conc' else int(c.values.get('flag', False))))
+MW_EM = _mw_unit('taurex.model.emission', 'EmissionModel', 'ngauss', '_ngauss', lambda c, v0: (z3.Int('ngauss') if c.mode != 'conc' else c.values.get('ngauss', 4)))
+
+
+# ------------------------------------------------------------------ TaurexChemistry.write: what load_chemistry_from_hdf5 reads
+def _cwr_fx(c):
+    return c.fixed if c.mode != 'conc' else c.values
+
+
+def _cwr_params(c):
+    fx = _cwr_fx(c)
+    nf = len(fx['fill'])
+    if c.mode == 'conc':
+        return dict(self=dict(__obj__='TaurexChemistry'), output=dict(__obj__='Output'))
+    return dict(self=ObjSpec('TaurexChemistry', _fill_gases=list(fx['fill']), _fill_ratio=[c.real('ratio%d' % i) for i in range(max(nf - 1, 1))],
+                             _gases=[AbsObj('Gas', 'gas:' + m, {}) for m in fx['gases']], _active=list(fx['active']), _inactive=list(fx['inactive'])),
+                output=AbsObj('Output', 'out', {}))
+
+
+def _cwr_post(c, v0, v1, r):
+    fx = _cwr_fx(c)
+    tr = [tuple(e) for e in (c.trace or []) if e[0] in ('create_group', 'gas.write') or e[0].startswith('write_')]
+    g = 'out/Chemistry'
+    d = {'one_group_named_Chemistry_under_the_output': [e for e in tr if e[0] == 'create_group'] == [('create_group', 'out', 'Chemistry')]}
+    here = {e[2]: e for e in tr if e[0].startswith('write_') and e[1] == g}
+
+    def plain(v):
+        if c.mode == 'conc':
+            return list(v)
+        heap = c.raw['state'].heap
+        return list(heap[v.id].items) if isinstance(v, Ref) and isinstance(heap[v.id], PyList) else v
+    d['type_key_names_this_class'] = 'chemistry_type' in here and here['chemistry_type'][0] == 'write_string' and here['chemistry_type'][3] == 'TaurexChemistry'
+    for key, want in (('active_gases', fx['active']), ('inactive_gases', fx['inactive']), ('fill_gases', fx['fill'])):
+        d[key + '_stored_as_a_string_array'] = key in here and here[key][0] == 'write_string_array' and plain(here[key][3]) == list(want)
+    nr = max(len(fx['fill']) - 1, 1)
+    ok = 'ratio' in here and here['ratio'][0] == 'write_array'
+    d['ratio_stored_as_an_array'] = ok
+    if ok and c.mode != 'conc':
+        A = c.raw['state'].heap.get(here['ratio'][3].id) if isinstance(here['ratio'][3], Ref) else None
+        d['ratio_has_the_values_of_the_object'] = isinstance(A, Arr) and z3.simplify(to_int(A.shape[0]) - nr).eq(z3.IntVal(0)) and \
+            all(z3.simplify(_to_real(A.elem((i,))) - z3.Real('ratio%d' % i)).eq(z3.RealVal(0)) for i in range(nr))
+    elif ok:
+        d['ratio_has_the_values_of_the_object'] = list(here['ratio'][3]) == list(c.values['__ratio__'])
+    d['every_gas_writes_itself_into_that_group_in_order'] = [e for e in tr if e[0] == 'gas.write'] == [('gas.write', 'gas:' + m, g) for m in fx['gases']]
+    return d
+
+
+def _cwr_native(c, p):
+    import numpy as np
+    from taurex.data.profiles.chemistry import TaurexChemistry
+    fx = c.values
+    trace = []
+
+    class _G:
+        def __init__(self, ident):
+            self.ident = ident
+
+        def create_group(self, name):
+            trace.append(('create_group', self.ident, name))
+            return _G('%s/%s' % (self.ident, name))
+
+        def write_string(self, k, v):
+            trace.append(('write_string', self.ident, k, v))
+
+        def write_scalar(self, k, v):
+            trace.append(('write_scalar', self.ident, k, v))
+
+        def write_array(self, k, v):
+            trace.append(('write_array', self.ident, k, [float(x) for x in v]))
+
+        def write_string_array(self, k, v):
+            trace.append(('write_string_array', self.ident, k, list(v)))
+
+    class _Gas:
+        def __init__(self, ident):
+            self.ident = ident
+
+        def write(self, out):
+            trace.append(('gas.write', self.ident, out.ident))
+    o = TaurexChemistry.__new__(TaurexChemistry)
+    nr = max(len(fx['fill']) - 1, 1)
+    ratio = [0.1 + 0.01 * i for i in range(nr)]
+    o._fill_gases, o._fill_ratio = list(fx['fill']), ratio
+    o._gases = [_Gas('gas:' + m) for m in fx['gases']]
+    o._active, o._inactive = list(fx['active']), list(fx['inactive'])
+    o.write(_G('out'))
+    c.values['__ratio__'] = ratio
+    return None, dict(p, __trace__=trace)
+
+
+_CWR_CASES = [dict(fill=f, gases=g, active=a, inactive=i) for f, g, a, i in (
+    (('H2', 'He'), ('H2O', 'CH4', 'N2'), ('H2O', 'CH4'), ('H2', 'He', 'N2')),
+    (('H2',), (), (), ('H2',)),
+    (('H2', 'He', 'N2'), ('H2O',), ('H2O',), ('H2', 'He', 'N2')))]
+
+CWR = Unit('C16', 'taurex.data.profiles.chemistry.taurexchemistry:TaurexChemistry.write', _cwr_params, post=_cwr_post, cases=_CWR_CASES, bounds=[{}],
+           abstract=dict(_OUT_ABS2, **{'Gas.write': lambda ex, st, o, args, kwargs, node: _ev(st, 'gas.write', o.ident, args[0].ident)}),
+           native=_cwr_native, gen=lambda rng: dict(rng.choice(_CWR_CASES)), short='TaurexChemistry.write',
+           doc='what the chemistry leaves for load_chemistry_from_hdf5: one group Chemistry under the output with chemistry_type = this class, the '
+               'active / inactive / fill gas names as string arrays, the fill ratios as an array with the object\'s values, and every gas writing '
+               'itself into that group in list order (the gases\' write(): own scenario units)')
